@@ -12,7 +12,8 @@ import random
 from lib.progs import EXPRS, STMTS, PATTERNS
 
 OPTION_SPACE = {
-    'trivia': [True, False, 'all', 'block', 'none', ('all', 'line'), ('block+1', 'all'), (False, False), 'all-', ('none', 'block')],
+    'trivia': [True, False, 'all', 'block', 'none', ('all', 'line'), ('block+1', 'all'), (False, False), 'all-', ('none', 'block'),
+               (True, 'line+2'), (True, 'line+'), (False, 'block+2'), ('block', 'line+1'), ('none+', 'none+1'), ('all', 'block+')],
     'pep8space': [True, False, 1],
     'elif_': [True, False],
     'docstr': [True, False, 'strict'],
